@@ -156,9 +156,20 @@ def load(units=None, include_inputs=False, witness=True, jobs=16):
         paths = all_units(include_inputs)
     else:
         paths = [u if os.path.isabs(u) else os.path.join(REPO, u) for u in units]
-        for p in paths:
-            if not os.path.exists(p):
-                raise AnalysisBroken("anchor vanished: unit %s" % rel(p))
+        missing = [p for p in paths if not os.path.exists(p)]
+        if missing:
+            # a translation unit that was split, merged or renamed: its code is still in that directory.  Load every unit
+            # of the directory instead (a superset of what was asked for); the functions the check needs are looked up by
+            # qualified name afterwards, and a function that really vanished is reported there
+            paths = [p for p in paths if os.path.exists(p)]
+            for m_ in missing:
+                d_ = os.path.dirname(m_)
+                sib = sorted(os.path.join(d_, f) for f in os.listdir(d_) if f.endswith(".cpp")) if os.path.isdir(d_) else []
+                if not sib:
+                    raise AnalysisBroken("anchor vanished: unit %s (and no other unit in its directory)" % rel(m_))
+                for q in sib:
+                    if q not in paths:
+                        paths.append(q)
     if witness and WITNESS not in paths:
         paths.append(WITNESS)
     with ThreadPoolExecutor(max_workers=jobs) as ex:
